@@ -565,11 +565,17 @@ def run(rep, repo, tier):
                       inline=keep_all_but_new_helpers(('is_base64',)))
     rep.units.append('igris/util/base64.cpp (unrolled)')
     alphabet_rule(rep, modb)
-    b64_encode_rule(rep, modb)
+    try:
+        b64_encode_rule(rep, modb)
+    except AnalysisBroken as e:
+        rep.defer_broken(e)      # the length / loop-structure rules of c18_len may still decide the change
     b64_decode_rule(rep, modb)
     modbp = compile_ir(repo + '/igris/util/base64.cpp', repo, inline=keep_all_but_new_helpers(('is_base64',)))
     url_rule(rep, modbp)
-    index_width_rule(rep, modbp)
+    try:
+        index_width_rule(rep, modbp)
+    except AnalysisBroken as e:
+        rep.defer_broken(e)
     accept_rule(rep, modbp)
     rep.floor('R-B64ACCEPT:post', 6)
     rep.floor('R-HEXDIGIT:post', 12)
